@@ -1174,5 +1174,154 @@ func GenDoc(r *rng.R, gotext bool) *Doc {
 		body.Kids = append(body.Kids, kid)
 	}
 	d.Body = body
+	// structured scenarios (each needs several cooperating constructs that the soup rarely assembles)
+	if r.P(1, 10) {
+		g.footnoteScenario(d)
+	}
+	if r.P(1, 10) {
+		g.varCycleScenario(d)
+	}
+	if r.P(1, 10) {
+		g.splitTableScenario(d)
+	}
 	return d
+}
+
+func (g *gen) smallPage() *Rule {
+	r := g.r
+	ru := &Rule{Prelude: "@page", Decls: []Decl{{Name: "size", Value: pick(r, []string{"200px 100px", "200px 100px", "150px 80px", "300px 120px", "100px 100px", "200px 60px"})}, {Name: "margin", Value: pick(r, []string{"0", "0", "5px", "10px 0"})}}}
+	return ru
+}
+
+// footnoteScenario: float:footnote elements with every footnote-policy / footnote-display, footnote
+// bodies from tiny to taller than the page, called from the first line of the document or later,
+// on a small page, with or without an @footnote area limited by max-height.
+func (g *gen) footnoteScenario(d *Doc) {
+	r := g.r
+	page := g.smallPage()
+	if r.P(1, 2) {
+		page.Kids = append(page.Kids, &Rule{Prelude: "@footnote", Decls: []Decl{{Name: pick(r, []string{"max-height", "max-height", "height", "margin-top", "border-top", "padding"}), Value: pick(r, []string{"20px", "40px", "0", "50%", "1px solid", "200px"})}}})
+	}
+	d.Author = append(d.Author, page,
+		&Rule{Prelude: "body", Decls: []Decl{{Name: "margin", Value: "0"}, {Name: "font", Value: pick(r, []string{"20px/1 Ahem", "10px/1 Ahem", "20px/1.5 serif", "40px/1 Ahem"})}}},
+		&Rule{Prelude: ".fn", Decls: []Decl{{Name: "float", Value: "footnote"}, {Name: "footnote-policy", Value: pick(r, []string{"auto", "line", "block", "block", "line"})}}})
+	if r.P(1, 3) {
+		d.Author = append(d.Author, &Rule{Prelude: ".fn", Decls: []Decl{{Name: "footnote-display", Value: pick(r, []string{"block", "inline", "compact"})}}})
+	}
+	if r.P(1, 4) {
+		d.Author = append(d.Author, &Rule{Prelude: pick(r, []string{".fn::footnote-call", ".fn::footnote-marker"}), Decls: []Decl{{Name: "content", Value: pick(r, []string{"counter(footnote)", "'*'", "counter(footnote, lower-roman) '. '", "none"})}}})
+	}
+	note := func() *Node {
+		return &Node{Tag: pick(r, []string{"span", "span", "div", "p"}), Attrs: []Attr{{K: "class", V: "fn"}}, Kids: []*Node{{Text: strings.TrimSpace(strings.Repeat(pick(r, []string{"f ", "note ", "ff ff "}), rng.Pick(r, 1, 3, 28, 60, 12, 28)))}}}
+	}
+	para := &Node{Tag: "p", Kids: []*Node{{Text: pick(r, []string{"abc", "abc def ghi", ""})}, note(), {Text: " def"}}}
+	if r.P(1, 3) {
+		para.Kids = append(para.Kids, note(), &Node{Text: " ghi jkl mno"})
+	}
+	if r.P(2, 3) {
+		d.Body.Kids = append([]*Node{para}, d.Body.Kids...) // called from the first line of an empty page
+	} else {
+		d.Body.Kids = append(d.Body.Kids, para)
+	}
+}
+
+// varCycleScenario: custom properties referring to one another in cycles of length 1-3 that pass
+// through functions (calc, rgb, translate, min, max, counter-less ones) or through var() fallbacks,
+// and regular properties that use them (so that the values are resolved).
+func (g *gen) varCycleScenario(d *Doc) {
+	r := g.r
+	names := []string{"--ca", "--cb", "--cc"}
+	n := r.Range(1, 3)
+	wrap := func(ref string) string {
+		switch r.Intn(9) {
+		case 0:
+			return ref // plain (direct cycles are handled; mixed ones must be too)
+		case 1:
+			return "calc(" + ref + " + 1px)"
+		case 2:
+			return "rgb(" + ref + ", 0, 0)"
+		case 3:
+			return "translate(" + ref + ")"
+		case 4:
+			return "min(" + ref + ", 10px)"
+		case 5:
+			return "calc(2 * " + ref + ")"
+		case 6:
+			return "max(1px, calc(" + ref + " / 2))"
+		case 7:
+			return "1px " + ref + " solid"
+		default:
+			return "linear-gradient(" + ref + ", blue)"
+		}
+	}
+	ru := &Rule{Prelude: pick(r, []string{"p", "body", ":root", "*", "div, p, span"})}
+	for i := 0; i < n; i++ {
+		target := names[(i+1)%n]
+		ref := "var(" + target + ")"
+		switch r.Intn(4) {
+		case 0:
+			ref = "var(" + target + ", 2px)"
+		case 1:
+			ref = "var(--undefined, " + wrap("var("+target+")") + ")" // the cycle passes through a fallback
+		}
+		ru.Decls = append(ru.Decls, Decl{Name: names[i], Value: wrap(ref)})
+	}
+	for k := 0; k < r.Range(1, 3); k++ {
+		use := "var(" + names[r.Intn(n)] + pick(r, []string{"", ", 3px"}) + ")"
+		if r.P(1, 3) {
+			use = wrap(use)
+		}
+		ru.Decls = append(ru.Decls, Decl{Name: pick(r, []string{"width", "margin-left", "color", "transform", "border", "background", "height", "padding-top"}), Value: use})
+	}
+	if r.P(1, 2) {
+		d.Author = append(d.Author, ru)
+		d.Body.Kids = append(d.Body.Kids, &Node{Tag: "p", Kids: []*Node{{Text: "x"}}})
+	} else { // in a style attribute
+		d.Body.Kids = append(d.Body.Kids, &Node{Tag: "p", Style: ru.Decls, Kids: []*Node{{Text: "x"}}})
+	}
+}
+
+// splitTableScenario: a table long enough to be split over 2-4 small pages, border-collapse
+// collapse or separate, with a (repeated) thead and / or tfoot, drawn through render.Full.
+func (g *gen) splitTableScenario(d *Doc) {
+	r := g.r
+	d.Author = append(d.Author, g.smallPage(),
+		&Rule{Prelude: "body", Decls: []Decl{{Name: "margin", Value: "0"}, {Name: "font", Value: pick(r, []string{"20px/1 Ahem", "10px/1 Ahem", "16px/1 serif"})}}},
+		&Rule{Prelude: "table.st", Decls: []Decl{{Name: "border-collapse", Value: pick(r, []string{"collapse", "collapse", "collapse", "separate"})}}},
+		&Rule{Prelude: ".st td, .st th", Decls: []Decl{{Name: "border", Value: pick(r, []string{"2px solid red", "1px solid", "4px double blue", "2px dashed", "0"})}}})
+	if r.P(1, 4) {
+		d.Author = append(d.Author, &Rule{Prelude: pick(r, []string{".st thead", ".st tr", ".st tbody", ".st"}), Decls: []Decl{{Name: pick(r, []string{"border", "border-bottom", "break-inside", "break-after"}), Value: pick(r, []string{"3px solid green", "hidden", "avoid", "page", "auto"})}}})
+	}
+	row := func(tag string, cells int) *Node {
+		tr := &Node{Tag: "tr"}
+		for i := 0; i < cells; i++ {
+			tr.Kids = append(tr.Kids, &Node{Tag: tag, Kids: []*Node{{Text: pick(r, []string{"a", "b", "ab", "x y"})}}})
+		}
+		return tr
+	}
+	cols := r.Range(1, 3)
+	t := &Node{Tag: "table", Attrs: []Attr{{K: "class", V: "st"}}}
+	if r.P(3, 4) {
+		h := &Node{Tag: "thead"}
+		for i := 0; i < r.Range(1, 2); i++ {
+			h.Kids = append(h.Kids, row("th", cols))
+		}
+		t.Kids = append(t.Kids, h)
+	}
+	if r.P(1, 3) {
+		t.Kids = append(t.Kids, &Node{Tag: "tfoot", Kids: []*Node{row("th", cols)}})
+	}
+	groups := r.Range(1, 2)
+	for gi := 0; gi < groups; gi++ {
+		b := &Node{Tag: "tbody"}
+		for i := 0; i < r.Range(3, 14); i++ {
+			b.Kids = append(b.Kids, row("td", cols))
+		}
+		t.Kids = append(t.Kids, b)
+	}
+	if r.P(1, 2) {
+		d.Body.Kids = append([]*Node{t}, d.Body.Kids...)
+	} else {
+		d.Body.Kids = append(d.Body.Kids, t)
+	}
 }
